@@ -36,6 +36,7 @@ void taskset_entries(dispenso::ThreadPool& pool, int* p) {
   ts.schedule(std::move(once2), dispenso::ForceQueuingTag());
   ts.scheduleBulk(9, [p](size_t) { return [p]() { ++*p; }; });
   ts.scheduleBulk(9, [p](size_t) { return [p]() { ++*p; }; }, dispenso::ForceQueuingTag());
+  ts.scheduleBulk(3, [p](size_t) { return dispenso::OnceFunction([p]() { ++*p; }); });
   ts.cancel();
   (void)ts.canceled();
   (void)ts.tryWait(3);
